@@ -8,6 +8,7 @@ each step of each frame-list shape.
 """
 
 from .. import env, gen, ops, tcpwork
+from ..fakes import memstream
 from ..fakes import tcp_device as td
 from ..prop import Prop
 from ..ref import broadcast as rb
@@ -39,7 +40,8 @@ class C16(Prop):
     technique = "wire monitor + reference merge/selection model: byte-for-byte comparison of the thermostat exchange; empty reply injected at every step"
     rule = ("case = one connection to a fake Breeze with a generated IR set (toggle/non-toggle x separate-swing/ordinary, dense or sparse) "
             "running all 32 request subsets (+ update-only variants) against a random reported state (2 x 5 x 16..30 x 4 x 2), then the same "
-            "shapes with an empty reply at each step; distinct = (remote kind, request subset, update flag, reported state, fault step); "
+            "shapes with an empty reply at each step (end of stream over TCP), then a 14-call history on ONE instance over an in-memory stream where single "
+            "reads return b'' transiently; distinct = (remote kind, request subset, update flag, reported state, fault step); "
             "non-trivial = requests that omit at least one setting (the omitted ones must come from the device's report) or inject a fault")
     level_text = ("Held-on-observed: for every subset of requested settings the whole exchange (login, state query, main command or status "
                   "frame, optional separate swing command) is compared byte for byte with the reference built from requested-or-reported "
@@ -158,10 +160,64 @@ class C16(Prop):
                             acc.violation("frame-after-empty-login", f"{a}: wrote {len(rec.writes)} frames although the login reply was empty", {"args": a})
             finally:
                 await cl.close()
+            await self._memory_history(acc, r, irset, remote, did, key, kind_name, ts, new_report, reported, healthy)
         if i % 24 == 1 and plans:
             a, rep, plan = plans[-1]
             acc.sample({"remote": kind_name, "ir_set_id": irset["IRSetID"], "keys_in_set": len(irset["IRWaveList"]), "reported": rep,
                         "request": a, "expected_frames": [(k, x.get("key", "")) for k, x in plan[1]]})
+
+    async def _memory_history(self, acc, r, irset, remote, did, key, kind_name, ts, new_report, reported, healthy):
+        """One API instance, one in-memory connection, a history of control calls some of which get a *transient*
+        empty reply at one step (exactly one read returns b'', later replies are normal again)."""
+        import aioswitcher.api as api_mod
+
+        inject = {"base": 0, "step": None}
+
+        def responder(conn, idx, frame):
+            if inject["step"] is not None and idx - inject["base"] == inject["step"]:
+                return memstream.EMPTY
+            return healthy(conn, idx, frame)
+
+        with memstream.Patch(responder) as mp:
+            api = api_mod.SwitcherType2Api("192.0.2.1", did, key)
+            await api.connect()
+            conn = mp.conns[-1]
+            trace = []
+            for n in range(14):
+                new_report()
+                a = request_for(r.randrange(32), r)
+                if r.random() < 0.25:
+                    a["update_state"] = True
+                world = {"reported": dict(reported), "irset": irset}
+                plan = ops.breeze_plan(a, reported, irset)
+                nframes = 1 + (len(plan[1]) if plan[0] == "ok" else 0)
+                step = r.choice([None, None] + list(range(nframes))) if plan[0] == "ok" and n > 0 else None
+                inject["base"], inject["step"] = len(conn.frames), step
+                n_sess = len(conn.sessions)
+                rec = tcpwork.OpRecord("control_breeze", a)
+                try:
+                    rec.value = await ops.call(api, "control_breeze", a, remote)
+                    rec.outcome = "return"
+                except Exception as exc:
+                    rec.outcome, rec.exc = "raise", exc
+                rec.writes = conn.frames[inject["base"]:]
+                inject["step"] = None
+                acc.ev()
+                acc.count("memory_history_calls")
+                trace.append((a, step, rec.outcome))
+                if step is None:
+                    self._judge(acc, rec, plan, a, world, did, key, conn.sessions[n_sess:], ts, kind_name + " (in-memory history)")
+                    continue
+                acc.count("transient_empty_injections")
+                acc.sig(env.sig(kind_name, "transient", tuple(k for k, _ in plan[1]), step, n > 1))
+                ok = (rec.outcome == "raise" and type(rec.exc) is RuntimeError) or \
+                     (rec.outcome == "return" and getattr(rec.value, "successful", None) is False)
+                if not ok:
+                    what = f"returned successful={getattr(rec.value, 'successful', '?')}" if rec.outcome == "return" else f"raised {type(rec.exc).__name__}: {rec.exc}"
+                    mech = "empty-reply-reported-success:after-earlier-calls" if rec.outcome == "return" else f"empty-reply-wrong-exception:{type(rec.exc).__name__}"
+                    acc.violation(mech, f"{kind_name}: call #{n + 1} on one instance, request {a}, one empty reply at step {step} of "
+                                  f"{[k for k, _ in plan[1]]}: {what}", {"args": a, "step": step, "history": [str(t) for t in trace]})
+            await api.disconnect()
 
     def _judge(self, acc, rec, plan, a, world, did, key, issued, ts, kind_name):
         tag = f"{kind_name} remote, reported {world['reported']}, request {a}"
